@@ -177,6 +177,21 @@ def gen_cases(ctx):
                 yield {"kind": "general", "plane": p1, "deg": None, "poses": [pose(quat_rot(r), tvec(r)) for _ in range(n)],
                        "mode": mode, "reads": r.choice(READS), "stamps": [0.1 * i for i in range(n)] if st else None,
                        "calls": [p1, "op:" + op] + (["op:" + r.choice(OPS)] if r.random() < 0.3 else []) + [p2]}
+    # before the first projection: metadata shared with / synchronised copies handed to *other* objects that get projected;
+    # between two projections: the metadata replaced or cleared (the second projection is still refused)
+    for mode in ("se3", "quat"):
+        for st in (True, False):
+            n = r.choice([3, 4, 6])
+            mk = lambda calls: {"kind": "general", "plane": next(c for c in calls if not c.startswith("op:")), "deg": None,  # noqa: E731
+                                "poses": [pose(quat_rot(r), tvec(r)) for _ in range(n)], "mode": mode, "reads": r.choice(READS),
+                                "stamps": [0.1 * i for i in range(n)] if st else None, "calls": calls}
+            p1, p2 = r.choice(PLANES), r.choice(PLANES)
+            yield mk(["op:meta_shared_sibling", p1, p2])
+            yield mk([p1, "op:meta_replace", p2])
+            yield mk([p1, "op:meta_clear", p2])
+            if st:
+                other = r.choice([p for p in PLANES if p != p1])
+                yield mk(["op:assoc_sibling:" + other, p1, p2])
     # poses_se3 given as one (n, 4, 4) ndarray / tuple / object array, n up to 33
     for n in (1, 2, 6, 7, 8, 9, 16, 17, 33):
         for fl in ("ndarray3", "tuple", "objarray"):
@@ -360,6 +375,25 @@ def apply_op(tr, op, case):
         tr.downsample(max(1, n // 2))
     elif op == "deepcopy":
         return copy.deepcopy(tr)
+    elif op == "meta_replace":          # the "already projected" state must not live in the public metadata
+        tr.meta = {}
+    elif op == "meta_clear":
+        tr.meta.clear()
+    elif op == "meta_shared_sibling":
+        # a sibling object that shares the *meta dict* (meta=tr.meta) is projected: the object under test was never projected
+        from evo.core.trajectory import PosePath3D, Plane
+        sib = PosePath3D(poses_se3=[np.array(p_) for p_ in tr.poses_se3], meta=tr.meta)
+        sib.project(Plane.XY)
+    elif op.startswith("assoc_sibling:"):
+        # a synchronised copy (sync.associate_trajectories) of the object under test is projected onto another plane: the
+        # object under test must not be affected (its own projection afterwards starts from its own poses)
+        from evo.core import sync
+        from evo.core.trajectory import Plane, PoseTrajectory3D
+        if isinstance(tr, PoseTrajectory3D):
+            tr.poses_se3                      # matrices materialised: what a shallow copy would share
+            a_, b_ = sync.associate_trajectories(tr, copy.deepcopy(tr))
+            a_.project({"xy": Plane.XY, "xz": Plane.XZ, "yz": Plane.YZ}[op.split(":")[1]])
+            b_.transform(T)
     return tr
 
 
@@ -385,7 +419,7 @@ def run_impl_(case):
         # twin projected once: the state after the first projection
         b = build(case)
         read_views(b, reads)
-        b.project(P[case["calls"][0]])
+        b.project(P[next(c for c in case["calls"] if not c.startswith("op:"))])
         out["after"] = snapshot(b)
         out["ops"] = []
         try:
